@@ -6,6 +6,11 @@ CONSTANTS
   CacheKey = "full"
   PoolMax = 1
   Slots = 1
+  Configs <- CfgNone
+  MergeInPlace = FALSE
+  BufPool = FALSE
+  TrackNeg = FALSE
+  Once = FALSE
 INIT Init
 NEXT Next
 VIEW view
